@@ -2,6 +2,7 @@
    Statements only; proofs in Proofs/AuthzProofs.v (decision structure) and
    Proofs/DatalogProofs.v (the worlds are least models). *)
 From BV Require Import Base Term Expr Datalog Authz DatalogProofs AuthzProofs OrderProofs.
+From Coq Require Import SetoidList.
 
 (* with the authority-level world fs and the block worlds ws (all runs
    error-free), the verdict is: the list of failed checks if any check of the
@@ -61,27 +62,34 @@ Theorem C04_run_error_wins : forall rx (auth : block) (bs : list block) (a : ast
   exists e', snd (authorize rx (auth :: bs) a) = VRunError e'.
 Proof. exact AuthzProofs.C04_run_error_wins. Qed.
 
-(* the worlds of the scopes are the least models, ... *)
+(* the worlds of the scopes are the least models, one fact per class of Equal
+   facts ([fact_eqv] is Predicate.Equal, see C05): every fact of a world is
+   derivable, every derivable fact has an Equal fact in the world, ... *)
 Theorem C04_worlds_are_least_models : forall rx (auth : block) (a : astate) fs,
-  setfree_facts (a_facts a) -> setfree_rules (a_rules a) -> block_setfree auth ->
   auth_world rx auth a = (fs, None) ->
-  (forall f, In f fs <->
-     Derivable rx (a_rules a ++ b_rules auth) (fold_left insert_fact (b_facts auth) (a_facts a)) f) /\
-  (forall lim b w, block_setfree b -> block_world rx lim fs b = (w, None) ->
-     forall f, In f w <-> Derivable rx (b_rules b) (fold_left insert_fact (b_facts b) fs) f).
+  ((forall f, In f fs ->
+      Derivable rx (a_rules a ++ b_rules auth) (fold_left insert_fact (b_facts auth) (a_facts a)) f) /\
+   (forall f,
+      Derivable rx (a_rules a ++ b_rules auth) (fold_left insert_fact (b_facts auth) (a_facts a)) f ->
+      InA fact_eqv f fs)) /\
+  (forall lim b w, block_world rx lim fs b = (w, None) ->
+     (forall f, In f w -> Derivable rx (b_rules b) (fold_left insert_fact (b_facts b) fs) f) /\
+     (forall f, Derivable rx (b_rules b) (fold_left insert_fact (b_facts b) fs) f -> InA fact_eqv f w)).
 Proof. exact OrderProofs.C04_worlds_are_least_models. Qed.
 
-(* ... hence, in the fragment, the verdict is exactly the one the declarative
+(* ... hence, for error-free runs and queries, the verdict is exactly the one the declarative
    decision procedure [spec_verdict] (stated over least-model membership only)
    prescribes, and that procedure is functional *)
 Theorem C04_verdict_spec : forall rx (auth : block) (bs : list block) (a : astate),
-  setfree_facts (a_facts a) -> setfree_rules (a_rules a) -> block_setfree auth -> Forall block_setfree bs ->
   runs_ok rx (auth :: bs) a -> queries_ef rx (auth :: bs) a ->
   forall v, spec_verdict rx auth bs a v <-> v = snd (authorize rx (auth :: bs) a).
 Proof. exact OrderProofs.C04_verdict_spec. Qed.
 
 Example C04_hypotheses_satisfiable := ex_C04_hyps.
 Example C04_all_outcomes := ex_C04_outcomes.
+(* the declarative specification on a programme with repeated-element sets,
+   intersection and union *)
+Example C04_verdict_spec_sets := s_C04_verdict_spec.
 
 Print Assumptions C04_verdict_structure.
 Print Assumptions C04_success_iff.
